@@ -35,6 +35,9 @@ CHECKS["C06"] = ("exhaustive enumeration of all 2^16 flag words (jumps) and all 
 CHECKS["C07"] = ("bounded-exhaustive enumeration of string/REP spellings x DF x CX 0..N x segment pairs x pointer placements x terminating-element positions, each run to completion under the REPEAT protocol on the real Interpreter; whole-instruction reference and per-step CX invariant; CLI conformance for the driver's REPEAT branch",
     "All 32 string/REP spellings in both cases, every CX up to 16 (quick) / 64 (thorough) plus large spot values, both directions, 4 (DS,ES) pairs incl. 1 MB wrap, overlapping and 0xFFFF-crossing pointers, every position of the first (non-)matching element and none; final machine state compared in full with the reference; every REPEAT answer must decrement CX by one; 9 programs through the real binary.",
     "DESIGN.md section 6 C07")
+CHECKS["C08"] = ("small-scope exhaustive enumeration of all well-formed programs up to K items, each assembled by the real Preprocessor and run by a replica of the driver loop around the real Interpreter (bound to the real driver by running the smaller scopes through the CLI binary), compared with a reference interpreter on the AST",
+    "Every well-formed program with at most 5 (quick) / 6 (thorough) items over a 21-25 item alphabet (labels at every position incl. start, jumps, loop, calls, procedures with explicit/implied ret, macro use, nop, hlt, print): complete executed trace, halt reason and final registers equal the reference interpreter's; programs up to 3/4 items plus hand-built special cases also through the real binary with stdout matched against the reference events.",
+    "DESIGN.md section 6 C08")
 NOT_YET = {}
 
 def main():
